@@ -106,11 +106,12 @@ package lexer
 //@   params self, c
 //@   requires isState(self) && fnid(self) != fnid(eof)
 //@   ensures[next_state] result.err == nil ==> isState(result.next)
-//@   ensures[boundary]   result.err == nil && (result.doEmit || result.doAdv) ==> fnid(result.next) == startOf(c)
+//@   ensures[boundary]   result.err == nil && (result.doEmit || result.doAdv) ==> classified(c) && fnid(result.next) == startOf(c)
 //@   ensures[extends]    result.err == nil && !result.doEmit && !result.doAdv ==> family(result.next) == family(self) && c != EOF
 //@   ensures[emit_kind]  result.err == nil && result.doEmit ==> result.typ == kindOf(self) && !result.doAdv && family(self) != 8 && family(self) != 4
 //@   ensures[adv]        result.err == nil && result.doAdv ==> family(self) == 8 || family(self) == 4
 //@   ensures[maximal]    result.err == nil && result.doEmit ==> !continues(self, c)
+//@   ensures[single]     family(self) >= 6 ==> result.err != nil || result.doEmit || result.doAdv
 //@   ensures[string_open] result.err == nil && result.doEmit && family(self) == 3 ==> fnid(self) == fnid(stringLitEnd)
 //
 //@ func whiteSpace [C14,C06] implements stateFunc
@@ -133,14 +134,24 @@ package lexer
 //@ pred lstate(l *Lexer, st stateFunc) bool := isState(st)
 //@     && (fnid(st) == fnid(eof) ==> l.from == len(l.input) && l.to == len(l.input))
 // Faithfulness facts hold as long as no lexer error has been reported (the property speaks of accepted inputs).
-//@ pred lfirst(l *Lexer, st stateFunc) bool := l.from < l.to ==> firstOK(family(st), strat(l.input, l.from))
+//@ pred lfirst(l *Lexer, st stateFunc) bool := (l.from < l.to ==> firstOK(family(st), strat(l.input, l.from))) && (l.from == l.to ==> family(st) >= 8 || l.to == len(l.input))
 //@ pred leof(l *Lexer) bool := l.eof ==> l.from == len(l.input) && l.to == len(l.input)
-//@ pred lwf(l *Lexer) bool := lbase(l) && lstate(l, l.state) && leof(l) && (l.Err == nil ==> synced(l) && lfirst(l, l.state))
+//@ pred lwf(l *Lexer) bool := lbase(l) && lstate(l, l.state) && leof(l)
+// "clean": no lexer error has been reported so far; the reader is exactly at `to` and the lexeme
+// starts with a character of the state's family. Preserved by every step that reports no error.
+//@ pred lclean(l *Lexer) bool := synced(l) && lfirst(l, l.state)
 //@ pred rdpos(l *Lexer) int := int(field[int64](l.rdr, "i"))
 //@ pred rdstr(l *Lexer) string := field[string](l.rdr, "s")
 //@ pred synced_after(l *Lexer, n int) bool := rdpos(l) == l.to + n
 //@ pred synced(l *Lexer) bool := rdpos(l) == l.to
 //
+// The two end markers are synthetic: they carry no span.
+//@ pred synthetic(t token.Type) bool := t.From() == 0 && t.To() == 0 && ((t.Type == token.EOL && t.Value == "\n") || t.Type == token.EOF)
+//@ pred kindMatchesFirst(k token.Kind, ch int) bool := ite('0' <= ch && ch <= '9', k == token.IntLit || k == token.FloatLit, ite('a' <= ch && ch <= 'z', k == token.Name,
+//@     ite(ch == '"', k == token.StringLit, ite(ch == '\n', k == token.EOL, ite(isSticky(rune(ch)), k == token.Sticky, isNotSticky(rune(ch)) && k == token.NotSticky)))))
+// A token of kind k would have been extended by the byte ch (so a faithful scanner cannot have ended it there).
+//@ pred extendsKind(k token.Kind, ch int) bool := (k == token.IntLit && (('0' <= ch && ch <= '9') || ch == '.')) || (k == token.FloatLit && '0' <= ch && ch <= '9')
+//@     || (k == token.Name && 'a' <= ch && ch <= 'z') || (k == token.Sticky && isSticky(rune(ch)))
 //@ func (*Lexer).nextRune [C14,C06]
 //@   requires lbase(l)
 //@   modifies l.rdr
@@ -156,17 +167,27 @@ package lexer
 //@   ensures[inv_base]  lbase(l) && l.input == old(l.input)
 //@   ensures[inv_state] lstate(l, l.state)
 //@   ensures[inv_eof]   leof(l)
-//@   ensures[inv_first] l.Err == nil ==> synced(l) && lfirst(l, l.state)
+//@   ensures[done]        old(l.eof) ==> !result
+//@   ensures[text_is_span;C14] result && l.Err == nil && !synthetic(l.Token) && l.Token.Type != token.StringLit ==> l.Token.Value == l.input[l.Token.From():l.Token.To()]
+//@   ensures[span;C14]     result && l.Err == nil && !synthetic(l.Token) ==> old(l.from) <= l.Token.From() && l.Token.From() <= l.Token.To() && l.Token.To() == l.from && l.from <= len(l.input)
+//@   ensures[nonempty;C14] old(lclean(l)) && result && l.Err == nil && !synthetic(l.Token) ==> l.Token.From() < l.Token.To()
+//@   ensures[kind_by_first;C14] old(lclean(l)) && result && l.Err == nil && !synthetic(l.Token) ==> kindMatchesFirst(l.Token.Type, strat(l.input, l.Token.From()))
+//@   ensures[maximal_run;C14] old(lclean(l)) && result && l.Err == nil && !synthetic(l.Token) && l.Token.To() < len(l.input) ==> !extendsKind(l.Token.Type, strat(l.input, l.Token.To()))
+//@   ensures[tail_eol;C14] result && l.Err == nil && synthetic(l.Token) && l.Token.Type == token.EOL ==> old(l.Token.Type) != token.EOL && !l.eof && l.from == len(l.input)
+//@   ensures[tail_eof;C14] result && l.Err == nil && synthetic(l.Token) && l.Token.Type == token.EOF ==> old(l.Token.Type) == token.EOL && l.eof && !old(l.eof)
+//@   ensures[stays_clean] old(lclean(l)) && (l.Err == nil || !result) ==> lclean(l)
 //@   ensures[false_means_done] !result ==> (old(l.eof) && l.eof) || l.Err != nil
 //@   ensures[monotone] l.from >= old(l.from) && l.to >= old(l.to)
 //@   loop 0 invariant[base]  lbase(l) && l.input == old(l.input) && l.from >= old(l.from) && l.to >= old(l.to) && l.eof == old(l.eof) && eqv(l.Token, old(l.Token))
 //@   loop 0 invariant[state] lstate(l, st) && isState(l.state)
 //@   loop 0 invariant[eof]   leof(l) && l.Err == old(l.Err)
-//@   loop 0 invariant[first] old(l.Err) == nil ==> lfirst(l, st)
-//@   loop 0 invariant[sync]  old(l.Err) == nil ==> synced(l)
+//@   loop 0 invariant[first] old(lclean(l)) ==> lfirst(l, st)
+//@   loop 0 invariant[pending] old(l.from) < old(l.to) && family(l.state) != 4 && family(l.state) != 8 ==> l.from == old(l.from) && family(st) == family(l.state)
+//@   loop 0 invariant[sync]  old(lclean(l)) ==> synced(l)
 //@   loop 0 decreases 2 * (len(l.input) - l.to) + ite(l.from < l.to, 1, 0)
 //
 //@ func NewLexer [C14,C06]
+//@   ensures[clean] field[int64](result.rdr, "i") == 0 && result.from == result.to
 //@   ensures[init] result.input == input && result.from == 0 && result.to == 0 && fnid(result.state) == fnid(whiteSpace) && !result.eof && field[string](result.rdr, "s") == input && field[int64](result.rdr, "i") == 0
 //
 //@ canary func (*TLexer).From
